@@ -2,7 +2,7 @@
    Only statements here; each is closed by `exact <lemma>` from proofs/P_composite.v (and P_affine.v). *)
 From Coq Require Import ZArith Reals List Bool.
 From PW Require Import Num NumR Vec Mat NpList Result.
-From PW.model Require Import M_rodrigues M_affine M_rotation M_composite.
+From PW.model Require Import M_rodrigues M_affine M_rotation M_composite M_affine_spec M_composite_spec.
 From PW.proofs Require Import P_affine P_rotation P_composite.
 Import ListNotations.
 Local Open Scope R_scope.
